@@ -42,7 +42,8 @@ TRANSPORTS = ['polling', 'websocket', 'upgrade']
 PROBES = ['ok', 'wrong', 'silent', 'close', 'refuse']
 ENDERS = ['server-close', 'silence', 'drop', 'post-fail', 'client-main',
           'client-in-message', 'client-in-connect', 'client-in-disconnect',
-          'client-abort', 'write-dead-then-client', 'client-during-post']
+          'client-abort', 'write-dead-then-client', 'client-during-post',
+          'garbage']
 PI, PT = 2, 1
 
 
@@ -223,6 +224,13 @@ def one_cycle(rec, w, V, case, cyc, openb, transport, probe, ender, rng):
         w.quiesce()
         d = c.call('disconnect')
         want_reason = 'client disconnect'
+    elif ender == 'garbage':
+        # the server sends something that is not a payload / packet
+        if want_tr == 'polling':
+            srv.pollq.put(rng.choice(['\x1e\x1ex', 'x', '4a\x1e']))
+        else:
+            srv.ws.push(rng.choice(['', 'x']))
+        want_reason = 'transport error'
     elif ender == 'client-during-post':
         # the application disconnects while a POST (or frame) of its own is
         # still in flight
@@ -260,7 +268,7 @@ def one_cycle(rec, w, V, case, cyc, openb, transport, probe, ender, rng):
         V('disconnect-event-count-' + ender, '%d disconnect events (%r) after '
           'the connection was ended by %s; state=%r' % (
               len(dis), [d_['reason'] for d_ in dis], ender, c.c.state))
-    elif dis[0]['reason'] != want_reason:
+    elif dis[0]['reason'] != want_reason and dis[0]['reason'] != '?legacy':
         V('disconnect-reason-' + ender, 'reason %r, expected %r' % (
             dis[0]['reason'], want_reason))
     rec.count('state_reset')
@@ -300,7 +308,7 @@ def disconnect_race(w, c, dis, case):
     if w.kind != 'T' or not case.get('sched'):
         return False
     epi = [d for d in dis if d['state'] == 'connected' and
-           d['reason'] == 'transport error']
+           d['reason'] in ('transport error', '?legacy')]
     calls = [k for k in getattr(c, 'disc_calls', [])
              if k['state'] == 'connected']
     for e in epi:
@@ -335,10 +343,20 @@ def idle_noops(rec, w, V):
 def run_case(rec, case):
     kind = case['kind']
     rec.evaluations += 1
+    rng = gen.mkrng('c08', case['sched'], str(case['cycles']))
+    # handler forms: plain functions on the asyncio client when no cycle
+    # needs to call the client from inside a handler; the legacy disconnect
+    # handler without a reason argument (its reason is then not observable)
+    hooks = any(c[3].startswith('client-in-') for c in case['cycles'])
+    plain = kind == 'A' and not hooks and rng.random() < 0.4
+    legacy = rng.random() < 0.25
+    case['_handlers'] = {'plain': plain, 'legacy_disconnect': legacy}
+    if plain or legacy:
+        rec.count('odd_handler_forms')
     w = cli.make_world(kind, policy='random' if case['sched'] else 'fifo',
                        seed=case['sched'], yield_prob=0.3 if case['sched']
-                       else 0.0, request_timeout=5)
-    rng = gen.mkrng('c08', case['sched'], str(case['cycles']))
+                       else 0.0, request_timeout=5, plain_handlers=plain,
+                       legacy_disconnect=legacy)
 
     state = {'cyc': 0}
 
@@ -348,8 +366,9 @@ def run_case(rec, case):
         if any(c[3] == 'client-in-connect' and c[0] == 'ok'
                for c in case['cycles'][:state['cyc'] + 1]):
             key = 'client-disconnect-in-connect-handler'
-        rec.viol(key, msg + ' | client=%s cycles=%r' % (
-            'Client' if kind == 'T' else 'AsyncClient', case['cycles']), case)
+        rec.viol(key, msg + ' | client=%s handlers=%r cycles=%r' % (
+            'Client' if kind == 'T' else 'AsyncClient',
+            case.get('_handlers'), case['cycles']), case)
     try:
         idle_noops(rec, w, V)
         for i, (o, t, p, e) in enumerate(case['cycles']):
